@@ -37,8 +37,7 @@ down in height, base state `g` well-formed, the chain of the old tip and the old
 without repeated transactions: after a successful walk to `dest` — undoing any number of blocks and applying any
 number — the snapshot at any block `B` of the destination's chain (in particular at the common ancestor of the two
 branches) reads every key as the canonical state of `B` does, i.e. as the live reader did when `B` was the tip;
-`confH` = heights along the destination chain. Pending transactions re-submitted by the walk must not be confirmed
-at or below `B`. -/
+`confH` = heights along the destination chain. Nothing is assumed about the transactions the walk re-submits. -/
 theorem snapshot_walk_core (e : Env) (hids : EnvIds e) (s : St) (lh : Int) (dest : Nat) (prune : Bool) (g : St)
     (hpl : ParentLower e) (hok : (walk e s lh dest prune).2 = true) (hinv : KVInv e g)
     (hg : ∀ key, curVer g key = none)
@@ -48,8 +47,6 @@ theorem snapshot_walk_core (e : Env) (hids : EnvIds e) (s : St) (lh : Int) (dest
     (hdchain : XV.C01.ChainValid e (ancestors e (e.blocks.length + 1) dest).reverse g)
     (honce : TxOnce e (ancestors e (e.blocks.length + 1) dest))
     (B : Nat) (hB : B ∈ ancestors e (e.blocks.length + 1) dest)
-    (hfresh : ∀ i ∈ (walk e s lh dest prune).1.pool,
-      i ∉ chainTxs e (ancestors e (e.blocks.length + 1) B).reverse)
     (key : String) (fuel : Nat)
     (hfuel : (chainTxs e (ancestors e (e.blocks.length + 1) dest).reverse).length +
       (walk e s lh dest prune).1.pool.length + 1 ≤ fuel) :
@@ -70,10 +67,10 @@ theorem snapshot_walk_core (e : Env) (hids : EnvIds e) (s : St) (lh : Int) (dest
     intro b hb i hi
     rw [← hsplit] at hb
     exact confOf_eq e _ honce b (List.mem_reverse.mp hb) i hi
-  rw [p1'] at hfresh hfuel
+  rw [p1'] at hfuel
   show _ = curVer (replayChain e (ancestors e (e.blocks.length + 1) B).reverse g) key
   apply snapshot_chain_core e hids g _ l2 _ _ l _ hg (chainValid_run e _ g hdchain) hconfH hlow hhigh p1' p2
-    (funext fun k => (w1.obs.ver k).trans (congrFun p3 k)) hfresh key fuel
+    (funext fun k => (w1.obs.ver k).trans (congrFun p3 k)) key fuel
   have h1 := nWrites_le e (chainTxs e l2 ++ l) key
   rw [chainTxs_append, List.length_append] at hfuel
   rw [List.length_append] at h1
@@ -103,7 +100,6 @@ theorem snapshot_canonical_core (e : Env) (hids : EnvIds e) (s : St) (g : St) (h
     (hs : TRefines s (applyPool e s.pool (XV.C01.canon e g s.pointer)))
     (honce : TxOnce e (ancestors e (e.blocks.length + 1) s.pointer))
     (B : Nat) (hB : B ∈ ancestors e (e.blocks.length + 1) s.pointer)
-    (hfresh : ∀ i ∈ s.pool, i ∉ chainTxs e (ancestors e (e.blocks.length + 1) B).reverse)
     (key : String) (fuel : Nat)
     (hfuel : (chainTxs e (ancestors e (e.blocks.length + 1) s.pointer).reverse).length + s.pool.length + 1 ≤ fuel) :
     snapshotGet e s (confOf e (ancestors e (e.blocks.length + 1) s.pointer)) (e.block B).height key fuel =
@@ -125,7 +121,7 @@ theorem snapshot_canonical_core (e : Env) (hids : EnvIds e) (s : St) (g : St) (h
     exact confOf_eq e _ honce b (List.mem_reverse.mp hb) i hi
   show _ = curVer (replayChain e (ancestors e (e.blocks.length + 1) B).reverse g) key
   apply snapshot_chain_core e hids g _ l2 _ _ s.pool _ hg (chainValid_run e _ g hchain) hconfH hlow hhigh rfl p2
-    p3 hfresh key fuel
+    p3 key fuel
   have h1 := nWrites_le e (chainTxs e l2 ++ s.pool) key
   rw [chainTxs_append, List.length_append] at hfuel
   rw [List.length_append] at h1
